@@ -829,9 +829,10 @@ func inclStream(r *Run) {
 		if c.usesCache() {
 			cl := c.inclLine()
 			res := c.check(r, cl)
-			r.Count("oracle-only(cache)")
+			r.Count("emitted(cache)")
 			r.Count("res=" + inclResKind(res))
 			r.Nontrivial(cl)
+			r.Emit(cl, res)
 			continue
 		}
 		cl := c.renderLine()
